@@ -512,10 +512,17 @@ def dechunk(b):
 
 
 def classify_refusal(op, vals, o):
+    """narrow classes for a call that fails before sending"""
+    exploded = [p["name"] for p in op["params"] if p["in"] == "query" and p["schema"].get("type") == "array"
+                and p.get("explode", p.get("style", "form") == "form") and isinstance(vals.get(p["name"]), list)]
+    if exploded and "builder error" in " ".join(o) and "unsupported value" in " ".join(o):
+        return "exploded-array-query-fails"
     return None
 
 
 def classify_path(pvals, base_path):
+    if any(v in (".", "..") for v in pvals.values()):
+        return "dot-segment-path-value-dropped"
     return None
 
 
